@@ -15,7 +15,7 @@ RULE = ("feature trees (nesting to depth 6, hidden entries, .gitignore/.fdignore
         "option and root form, plus a sweep of every pattern option (--name, --path absolute / cwd-relative from two "
         "working directories, --exclude, --regex, --ignore-case) x link mode x depth {unset,2} (thorough: on three trees "
         "the complete product pattern option x depth x hidden x no-ignore x link mode); roots single, repeated, "
-        "overlapping; --one-fs with a link into a second file system and a nested mount. Oracle: reference walk "
+        "overlapping, given as arguments or through --stdin (no path may be listed twice); --one-fs with a link into a second file system and a nested mount. Oracle: reference walk "
         "written from --help/README (a file is selected if some route within the depth limit reaches it; pruning never "
         "changes the result); observed = paths of `group --rf-over 0`. Files below a directory fully matched by an "
         "--exclude pattern are don't-care. Non-trivial = reference selects at least one file; distinct by (tree, options).")
@@ -200,6 +200,8 @@ def ref_scan(cwd, roots, o):
     must, dontcare = set(), set()
     best = {}
     attempts = {}   # directory -> set of levels at which some route reached it (with -L)
+    stack = []      # directories on the current route
+    routes = {}     # selected path -> every directory on some route by which the reference selects it
     min_size = o.get("min", 1)
     max_size = o.get("max")
 
@@ -215,6 +217,7 @@ def ref_scan(cwd, roots, o):
             return
         if sel.file_ok(path):
             must.add(path)
+            routes.setdefault(path, set()).update(stack)
 
     def visit_entry(path, level, rules, root_dev, excl):
         name = os.path.basename(path)
@@ -271,8 +274,12 @@ def ref_scan(cwd, roots, o):
             names = sorted(os.listdir(path))
         except OSError:
             return
-        for n in names:
-            visit_entry(os.path.join(path, n), level + 1, rules, root_dev, excl)
+        stack.append(path)
+        try:
+            for n in names:
+                visit_entry(os.path.join(path, n), level + 1, rules, root_dev, excl)
+        finally:
+            stack.pop()
 
     for r in roots:
         ap = os.path.normpath(os.path.join(cwd, r))
@@ -282,6 +289,7 @@ def ref_scan(cwd, roots, o):
         elif os.path.isfile(ap):
             ap = os.path.join(os.path.realpath(os.path.dirname(ap)), os.path.basename(ap))
             visit_entry(ap, 0, [], os.stat(ap).st_dev, False)
+    attempts["__routes__"] = routes
     return must, dontcare, attempts
 
 
@@ -366,6 +374,7 @@ def cases(tier, seed):
     popts = pattern_options()
     sizes = [{}, {"min": 0}, {"min": 2, "max": 2}]
     idx = 0
+    jj = 0
     for tname in (QUICK_TREES if quick else list(TREES)):
         base_roots = ["r", "q"] if tname == "multi" else ["r"]
         i = 0
@@ -381,14 +390,18 @@ def cases(tier, seed):
                             continue   # ignore files combined with followed links: outside the alphabet
                         o = {"depth": depth, "hidden": hidden, "no_ignore": no_ignore, "follow": follow, "report_links": rl}
                         variants = [({}, "", base_roots)]
-                        if not quick or i % 4 == 0:
+                        if not quick or i % 3 == 0:   # 3 is coprime to the 4 link modes of the inner loop
                             lab, po, cwd = popts[(i * 7) % len(popts)]
                             variants.append((dict(po, **sizes[i % 3]), cwd, base_roots))
                             rf = ROOT_FORMS[i % len(ROOT_FORMS)]
                             variants.append((sizes[(i + 1) % 3], "", rf[1]))
-                        for extra, cwd, roots in variants:
+                            # the same root forms with the input paths on standard input
+                            for rf2 in ROOT_FORMS:
+                                jj += 1
+                                variants.append((sizes[jj % 3], "", rf2[1], True))
+                        for extra, cwd, roots, *via_stdin in variants:
                             oo = dict(o, **extra)
-                            out.append({"tree": tname, "o": oo, "cwd": cwd, "roots": roots})
+                            out.append({"tree": tname, "o": oo, "cwd": cwd, "roots": roots, "stdin": bool(via_stdin)})
         # pattern sweep
         for lab, po, cwd in popts:
             for follow, rl in ((False, False), (True, False), (False, True), (True, True)):
@@ -484,8 +497,13 @@ def evaluate(case):
                 if o.get(k):
                     o[k] = [p.replace("@TREE@", sc.tree) for p in o[k]]
             must, dontcare, attempts = ref_scan(cwd, roots, o)
-            args = ["group", "--rf-over", "0"] + opt_args(o, sc.tree) + roots + ["-f", "json"]
-            rc, out, err, to = C.fclones(args, sc, cwd=cwd)
+            if case.get("stdin"):
+                args = ["group", "--rf-over", "0"] + opt_args(o, sc.tree) + ["--stdin", "-f", "json"]
+                rc, out, err, to = C.fclones(args, sc, cwd=cwd, stdin=("\n".join(roots) + "\n").encode())
+                args = args + ["<"] + roots
+            else:
+                args = ["group", "--rf-over", "0"] + opt_args(o, sc.tree) + roots + ["-f", "json"]
+                rc, out, err, to = C.fclones(args, sc, cwd=cwd)
             errs = err.decode("utf-8", "replace")
             depth0_no_files = o.get("depth") == 0 and not any(os.path.isfile(os.path.join(cwd, r)) for r in roots)
             if to:
@@ -500,7 +518,13 @@ def evaluate(case):
                                  "detail": "rc=%s %s args=%s" % (rc, errs[-300:], args)})
             else:
                 rep = C.parse_json_report(out)
-                got = set(C.u(p) for g in rep.groups for p in g["paths"])
+                listed = [C.u(p) for g in rep.groups for p in g["paths"]]
+                got = set(listed)
+                if len(listed) != len(got):
+                    twice = sorted(p for p in got if listed.count(p) > 1)
+                    viol.append({"kind": "file_listed_twice", "tree": case["tree"], "follow_links": bool(o.get("follow")),
+                                 "roots_via_stdin": bool(case.get("stdin")),
+                                 "detail": "%s listed more than once; args %s" % (twice[:4], args)})
         finally:
             if mounted:
                 subprocess.run(["umount", mounted])
@@ -515,6 +539,10 @@ def evaluate(case):
         extra = sorted(got - must - dontcare)
         if missing:
             def multi_route(p):
+                # some directory on a route by which the reference reaches p (possibly through links) is itself
+                # reached by several routes at different levels
+                if any(len(attempts.get(d, ())) > 1 for d in attempts.get("__routes__", {}).get(p, ())):
+                    return True
                 d = os.path.dirname(p)
                 while len(d) > 1:
                     if len(attempts.get(d, ())) > 1:
@@ -549,7 +577,7 @@ def evaluate(case):
             viol.append(dict(feats, kind="extra_file", all_extra_exactly_one_level_below_limit=lvl,
                              detail="scanned but not selected by the options: %s; args %s cwd %s" % (extra[:4], args, case["cwd"])))
     return {"violations": viol, "nontrivial": [case["tree"], sorted(o.items(), key=str), case["cwd"], case["roots"],
-                                               case.get("second_fs")] if must else None,
+                                               case.get("second_fs"), bool(case.get("stdin"))] if must else None,
             "outcome": "files" if must else "no_files",
             "sample": {"tree": case["tree"], "options": o, "roots": case["roots"], "selected": sorted(must)[:5]}}
 
